@@ -10,6 +10,7 @@ import PygProofs.Lemmas.OpsFLemmas
 import PygProofs.Lemmas.OpsXLemmas
 import PygProofs.Lemmas.OpsFXLemmas
 import PygProofs.Lemmas.OpsFoldLemmas
+import PygProofs.Lemmas.OpsMixedLemmas
 
 namespace Pyg.Props.C08
 open Pyg Pyg.Align Pyg.Ops
@@ -1714,5 +1715,56 @@ theorem oj_neutral_per_step :
         [.df ⟨[0], [("a", [some 1]), ("b", [some 2])]⟩, .df ⟨[0], [("b", [some 4]), ("c", [some 8])]⟩, .num (some 1)] [] =
       some (.df ⟨[0], [("a", [some 2]), ("b", [some 7]), ("c", [some 9])]⟩) := by
   decide +kernel
+
+/-! ### lists that MIX Series and scalars (reviews t4 / v4: `reduce_value_n` was for Series only) -/
+
+/-- **left to right for lists that MIX Series and scalars, by value**: `add_` / `mul_` of ANY list of at least two operands holding
+at least one Series (no fill method, any index policy) is the Series on the joint index of the Series among them (`df_index`
+skips scalars) whose value at `t` is the left fold `((x[t] op y[t]) op ...)` of what every operand shows at `t`
+(`Operand.valAt`: a Series its own value, NaN without a row; a scalar itself) - induction over the list through
+`binop_step_mixed`, not the model's own fold.  `reduce_value_n` is the case without scalars. -/
+theorem reduce_value_mixed (op : Op) (hop : op = .add ∨ op = .mul) (how : How) (x y : Operand) (xs : List Operand)
+    (jx : List Int) (hj : joinIndex how (indexesOf (x :: y :: xs)) = some jx) :
+    opList op how Option.none (x :: y :: xs) [] =
+      some (.ts { idx := jx, vals := jx.map fun t => (y :: xs).foldl (fun v s => op.appO v (s.valAt t)) (x.valAt t) }) := by
+  obtain ⟨h1, h2, h3⟩ := foldl_binop_mixed op how x (y :: xs)
+  rw [reduce_left op hop, List.append_nil]
+  have hidx : ((y :: xs).foldl (binop op how Option.none) x).idx? = some jx := by
+    rw [h1, ← hj]
+    have := joinO_all how (x :: y :: xs)
+    rw [List.foldl_cons] at this
+    have h0 : joinO how Option.none x.idx? = x.idx? := rfl
+    rw [h0] at this
+    exact this
+  have hn := h2 (by simp)
+  cases hr : (y :: xs).foldl (binop op how Option.none) x with
+  | num q => rw [hr] at hidx; cases hidx
+  | ts s =>
+    rw [hr] at hidx hn h3
+    have hs : s.idx = jx := by simpa [Operand.idx?] using hidx
+    cases s with
+    | mk si sv =>
+      subst hs
+      congr 3
+      exact hn.trans (List.map_congr_left fun t _ => h3 t)
+
+/-- ... and a list of scalars only is the scalar left fold -/
+theorem reduce_value_scalars (op : Op) (hop : op = .add ∨ op = .mul) (how : How) (p : Option Rat) (qs : List (Option Rat)) :
+    opList op how Option.none ((p :: qs).map .num) [] = some (.num (qs.foldl op.appO p)) := by
+  rw [List.map_cons, reduce_left op hop, List.append_nil]
+  congr 1
+  induction qs generalizing p with
+  | nil => rfl
+  | cons q qs ih =>
+    have hb : binop op how Option.none (.num p) (.num q) = .num (op.appO p q) := by
+      simp [binop, alignAll, indexesOf, joinIndex, kernel]
+    simp only [List.map_cons, List.foldl_cons, hb]
+    exact ih _
+
+/-- `add_([a, 1, b], join='oj')`: the joint index is the union of the two Series' indices, the value `(a[t] + 1) + b[t]` -/
+example (a b : RSeries) : ∃ jx, joinIndex .outer (indexesOf [.ts a, .num (some 1), .ts b]) = some jx ∧
+    opList .add .outer Option.none [.ts a, .num (some 1), .ts b] [] =
+      some (.ts { idx := jx, vals := jx.map fun t => Op.add.appO (Op.add.appO (valueAtR a t) (some 1)) (valueAtR b t) }) :=
+  ⟨_, rfl, reduce_value_mixed .add (Or.inl rfl) .outer (.ts a) (.num (some 1)) [.ts b] _ rfl⟩
 
 end Pyg.Props.C08
